@@ -417,7 +417,9 @@ class BitfieldEngine(object):
                     # extremes: all ones, top bit only, zero
                     val = [(1 << width) - 1, 1 << (width - 1), 0][t.draw(3)]
             else:
-                val = [0, 1, 2, 3, 7, 200, 300, 1000, (1 << 33) + 5][t.draw(9)]
+                val = [0, 1, 2, 3, 7, 200, 300, 1000, (1 << 33) + 5, 1 << 49,
+                       1 << 52, (1 << 48) - 1, 1 << 60, 1 << 31][
+                           t.draw_small(14, 0.85)]
             if t.draw(30) == 0:
                 val = -1
             # a fresh int object every time: equal values reached through
